@@ -1,6 +1,7 @@
 import AlgoVerif.Proofs.C06BinarySim
 import AlgoVerif.Proofs.C06Patricia
-import AlgoVerif.Proofs.C06PSim
+import AlgoVerif.Proofs.C06PStr
+import AlgoVerif.Proofs.C06PDel
 /-!
 # C06 — tries are ordered string maps with prefix and pattern queries
 
@@ -96,36 +97,46 @@ theorem C06_patricia_search_total {V : Type} (t : Patricia V) (hc : Patricia.Clo
 
 example : Patricia.Closed (Patricia.new : Patricia Int) := Patricia.Closed.new
 
-/-- **C06, Patricia trie, partial.**  For every history of Put, Get, DeleteAll and the ordered-map queries
-(Size, Min, Max, Floor, Ceiling, Select, Rank, Range, RangeSize, All) whose stored keys are shorter than
-`lenPos = 2^30` bits (`PatriciaHistory`, see `Model/C06Run.lean`), over any value type — empty keys, keys
-containing or ending in 0x00 included — the Patricia trie never panics, never runs out of fuel, and every
-operation returns exactly what the sorted map returns.
+/-- **C06, Patricia trie, partial.**  For every history of Put, Get, DeleteAll and **all** queries (Size, Min, Max,
+Floor, Ceiling, Select, Rank, Range, RangeSize, All, WithPrefix, LongestPrefixOf, Match) whose stored keys are
+non-empty and shorter than `lenPos = 2^30` bits (`PatriciaHistory`, see `Model/C06Run.lean`; WithPrefix arguments
+that short too), over any value type — keys containing or ending in 0x00 included — the Patricia trie never
+panics, never runs out of fuel, and every operation returns exactly what the sorted map returns.
 
 Full statement (not proved; the missing operations are tied to the code by the per-run correspondence and
 oracle checks only):
 ```
-theorem C06_patricia (ops : List (Op V)) (h : every stored key is shorter than 2^30 bits) :
+theorem C06_patricia (ops : List (Op V)) (h : every stored key is non-empty and shorter than 2^30 bits) :
     Patricia.run Patricia.new ops = (Spec.Map.run [] ops).map Outcome.ok
 ```
-Missing: Delete / DeleteMin / DeleteMax (`remove`'s relinking of the cyclic store: the unfolding `Rep` of
-`Proofs/C06PRep.lean` has to be re-established after up to four link updates and a node taking over another
-node's bit position) and the three string queries WithPrefix / LongestPrefixOf / Match on the Patricia trie. -/
+Missing: Delete / DeleteMin / DeleteMax.  Proved towards it (`Proofs/C06PDelT.lean`, `Proofs/C06PDel.lean`): the
+two search loops of `_delete` end at the nodes `findEnd` / `parentEnd` describe, removing the leaf and contracting
+its parent keeps the crit-bit invariant and removes exactly that entry, and the store after the first link update
+of `remove` represents the contracted tree (`contract_rep`).  Not done: the second half of `remove` (the removed
+node's Patricia node being replaced by the contracted one: link of its parent, bit position and links copied,
+root moved) and the re-establishment of the remaining invariants. -/
 theorem C06_patricia_partial {V : Type} (ops : List (Op V)) (h : PatriciaHistory ops = true) :
     Patricia.run (Patricia.new : Patricia V) ops = (Spec.Map.run ([] : Spec.Map V) ops).map Outcome.ok :=
-  Patricia.run_sim Patricia.PInv.new ops h
+  Patricia.run_sim Patricia.PInv.new (by simp) ops h
 
-/-- non-vacuity: keys that are prefixes / extensions of each other, the empty key, keys that differ by trailing
-0x00 bytes only (D9e: `a`, `a\0`, `a\0\0`), an update, and queries. -/
+/-- non-vacuity: keys that are prefixes / extensions of each other, keys that differ by trailing 0x00 bytes only
+(D9e: `a`, `a\0`, `a\0\0`), keys differing in the last bit of a byte (`b`, `c`), an update, and all kinds of
+queries. -/
 example : PatriciaHistory
-    ([.put [97, 98] 1, .put [97] 2, .put [97, 0] 3, .put [97, 0, 0] 4, .put [] 6, .put [97] 5, .get [97, 0], .rank [97, 0, 0],
-     .floor [97, 1], .ceiling [97, 0], .select 2, .range [97] [98], .min, .max, .all, .size] : List (Op Int)) = true := by
+    ([.put [97, 98] 1, .put [97] 2, .put [97, 0] 3, .put [97, 0, 0] 4, .put [98, 120] 6, .put [99, 121] 7, .put [97] 5,
+      .get [97, 0], .rank [97, 0, 0], .floor [97, 1], .ceiling [97, 0], .select 2, .range [97] [98], .min, .max, .all, .size,
+      .withPrefix [97], .withPrefix [98], .withPrefix [99], .longestPrefixOf [97, 0, 0, 7], .match [97, 42],
+      .match [42, 42, 42]] : List (Op Int)) = true := by
   decide
 
 example : Patricia.run (Patricia.new : Patricia Int)
-    [.put [97, 98] 1, .put [97] 2, .put [97, 0] 3, .put [97, 0, 0] 4, .put [] 6, .put [97] 5, .get [97, 0], .rank [97, 0, 0],
-     .floor [97, 1], .ceiling [97, 0], .select 2, .range [97] [98], .min, .max, .all, .size]
+    [.put [97, 98] 1, .put [97] 2, .put [97, 0] 3, .put [97, 0, 0] 4, .put [98, 120] 6, .put [99, 121] 7, .put [97] 5,
+      .get [97, 0], .rank [97, 0, 0], .floor [97, 1], .ceiling [97, 0], .select 2, .range [97] [98], .min, .max, .all, .size,
+      .withPrefix [97], .withPrefix [98], .withPrefix [99], .longestPrefixOf [97, 0, 0, 7], .match [97, 42],
+      .match [42, 42, 42]]
     = (Spec.Map.run ([] : Spec.Map Int)
-    [.put [97, 98] 1, .put [97] 2, .put [97, 0] 3, .put [97, 0, 0] 4, .put [] 6, .put [97] 5, .get [97, 0], .rank [97, 0, 0],
-     .floor [97, 1], .ceiling [97, 0], .select 2, .range [97] [98], .min, .max, .all, .size]).map Outcome.ok := by
+    [.put [97, 98] 1, .put [97] 2, .put [97, 0] 3, .put [97, 0, 0] 4, .put [98, 120] 6, .put [99, 121] 7, .put [97] 5,
+      .get [97, 0], .rank [97, 0, 0], .floor [97, 1], .ceiling [97, 0], .select 2, .range [97] [98], .min, .max, .all, .size,
+      .withPrefix [97], .withPrefix [98], .withPrefix [99], .longestPrefixOf [97, 0, 0, 7], .match [97, 42],
+      .match [42, 42, 42]]).map Outcome.ok := by
   decide
